@@ -277,7 +277,8 @@ THOROUGH_A = {"ILevels = {8, 16, 24}": "ILevels = {8, 16, 24, 32}", "TLevels = {
 THOROUGH_B = {"Depth = 2": "Depth = 3", "Places = {0, 1, 10}": "Places = {0, 1, 10, 20}"}
 
 
-def model(cfgname, subst, depth_key="Depth"):
+def model(cfgname, subst):
+    """run Protection.tla with (a substituted copy of) spec/<cfgname>; group the dumped full-depth histories by configuration"""
     wd = tempfile.mkdtemp(prefix="ppverif_c29_")
     try:
         txt = open(os.path.join(SPEC_DIR, cfgname)).read()
@@ -388,7 +389,7 @@ def run(tier, seed, replay=None):
         "distinct_nontrivial": crossings,
         "rule": "every configuration of Protection.cfg (relay kind x pick-up route x time route x switch/scenario x all "
                 "gradings I_s<I_g<I_gg, t>> <= t> over the level sets x curve; fuse route x std-type data sets x "
-                "curve_select x placement in net.characteristic x all monotone 3-point sets) with every single action, "
+                "curve_select x placement in net.characteristic x all monotone point sets over the level sets) with every single action, "
                 "and every history of ProtectionLife.cfg (depth %s), replayed on real devices; non-trivial = distinct "
                 "(configuration, adjacent current levels L, L+1) whose observed (trip, time) differ, i.e. a stage "
                 "boundary actually crossed" % (dB if not replay else "-"),
